@@ -147,7 +147,13 @@ func genHistory(rt *rapid.T) *History {
 			case c < 450:
 				form := rapid.IntRange(0, 3).Draw(rt, "form")
 				i := rx.Range(rt, "i", 0, s.n)
-				j := rx.Range(rt, "j", i, s.n)
+				hi := s.n
+				if !s.isNil && s.capacity > s.n && (form == 0 || form == 2) && rx.Chance(rt, "extend", 1, 2) {
+					// the upper bound of a slice expression is limited by the capacity, not the length: a slice
+					// that was once longer can be extended again and shows what the array holds there
+					hi = s.capacity
+				}
+				j := rx.Range(rt, "j", i, hi)
 				if form == 1 || form == 3 {
 					j = s.n
 				}
